@@ -135,6 +135,7 @@ func init() {
 			})
 			return nil
 		},
+		z + "Mark": func(e *Exec, fr *frame, a []Value) Value { e.markPoint(fr); return nil },
 		z + "AwaitTimer": func(e *Exec, fr *frame, a []Value) Value {
 			d := a[0].(*Term)
 			cond := a[1]
